@@ -162,25 +162,34 @@ Section FInvSec.
         exists m. repeat split; auto. now rewrite <- V.
   Qed.
 
+  Notation new_cells := (new_cells W).
+
   Lemma build_f_unfold s n : build_f s n =
     let b' := closure W (S N) (st_built s) n in
     let r := fold_left (bstep_f (st_built s) b') (rorder (st_built s) n ++ seq 0 N)
-                       (build_c1 W s b', None) in
+                       (new_cells s b', None) in
     ({| st_cache := fst r; st_built := b' |}, snd r).
   Proof.
-    unfold Fail.build_f, build_c1, fresh. cbn zeta.
-    destruct (fold_left _ _ _). reflexivity.
+    unfold Fail.build_f. cbn zeta.
+    destruct (fold_left _ (rorder (st_built s) n ++ seq 0 N) _). reflexivity.
   Qed.
 
   (* without stored results a new cell starts empty: the cache before the new
      range nodes are evaluated is the cache of the state *)
-  Lemma build_c1_same s b' : Inv s -> forall m, build_c1 W s b' m = st_cache s m.
+  Lemma build_c1_same s b' : Inv s -> forall m, new_cells s b' m = st_cache s m.
   Proof.
-    intros I m. unfold build_c1, fresh.
-    destruct (b' m && negb (st_built s m) && negb (isinput m)) eqn:G; auto.
-    apply andb_prop in G. destruct G as [G Im]. apply andb_prop in G. destruct G as [_ Bm].
-    apply negb_true_iff in Bm. apply negb_true_iff in Im.
-    rewrite (inv_unbuilt W sem s I m Bm), Im, NS. now destruct (isrange m).
+    intros I. unfold Fail.new_cells.
+    assert (F: forall l c, (forall m, c m = st_cache s m) ->
+               forall m, fold_left (fun (c : cache) m =>
+                 if b' m && negb (st_built s m) && negb (isinput m)
+                 then upd c m (if isrange m then VNone else wb_stored W m) else c) l c m = st_cache s m).
+    { induction l as [|k l IHl]; intros c H; cbn [fold_left]; auto.
+      apply IHl. intros m. destruct (b' k && negb (st_built s k) && negb (isinput k)) eqn:G; auto.
+      apply andb_prop in G. destruct G as [G Ik]. apply andb_prop in G. destruct G as [_ Bk].
+      apply negb_true_iff in Bk. apply negb_true_iff in Ik.
+      destruct (Nat.eq_dec m k) as [->|NE]; [|now rewrite upd_other].
+      rewrite upd_same, (inv_unbuilt W sem s I k Bk), Ik, NS. now destruct (isrange k). }
+    apply F. auto.
   Qed.
 
   Lemma build_f_inv s n : FInv s -> n < N ->
@@ -198,14 +207,14 @@ Section FInvSec.
     fold b' in C1, C2, C3, C4.
     assert (FA: forall m, b' m = true -> st_built s m = false -> m = n \/ anc m n).
     { intros m Bm B0. destruct (closure_anc _ _ _ _ Bm) as [H|H]; [congruence|auto]. }
-    assert (S1: FSound (build_c1 W s b')).
+    assert (S1: FSound (new_cells s b')).
     { intros m Lm Im. rewrite (build_c1_same s b' I m). intros H.
       rewrite <- (SD m Lm Im H). apply (fspec_ext W fsem fpre WF); auto.
       intros k _. now apply build_c1_same. }
     destruct (bfold_f (st_built s) b' n L C3 FA (rorder (st_built s) n ++ seq 0 N)
-                      (build_c1 W s b') S1) as [E F].
+                      (new_cells s b') S1) as [E F].
     set (r := fold_left (bstep_f (st_built s) b') (rorder (st_built s) n ++ seq 0 N)
-                        (build_c1 W s b', None)) in *.
+                        (new_cells s b', None)) in *.
     cbn zeta in E, F. cbn [fst snd].
     assert (E0: fext (anceq W n) (st_cache s) (fst r)).
     { intros m. destruct (E m) as [H|(A1&A2&A3&A4&A5&A6&A7)].
